@@ -393,6 +393,11 @@ func (e *Analysis[S]) refineNil(st *fstate[S], cond ast.Expr, branch bool) {
 		if isNilIdent(e.Info, y) {
 			if obj := objOf(e.Info, x); obj != nil {
 				isNonNil := (be.Op == token.NEQ) == branch
+				// what is already known about the variable decides the test
+				if prev := st.nils[obj]; prev != nilUnknown && (prev == nonNil) != isNonNil {
+					st.ok = false
+					return
+				}
 				// Select the continuation of a wrapper call bound to this variable.
 				if sp := st.splits[obj]; sp != nil && !sp.boolean && sp.base != nil && e.Equal(st.s, *sp.base) {
 					var pick *S
@@ -709,6 +714,33 @@ func (e *Analysis[S]) inlineFunc(fc *FlowCtx[S], st *fstate[S], call *ast.CallEx
 	sub := &FlowCtx[S]{A: e, Fn: decl, Parent: fc, Call: call, Inl: decl}
 	entry := e.copyState(*st)
 	entry.splits = nil
+	// what is known about the arguments is known about the parameters (swapFID(fid, nil))
+	{
+		idx := 0
+		for _, fld := range decl.Type.Params.List {
+			for _, nm := range fld.Names {
+				if idx < len(call.Args) {
+					if pobj := e.Info.Defs[nm]; pobj != nil && isNillable(pobj.Type()) {
+						arg := unparen(call.Args[idx])
+						switch {
+						case isNilIdent(e.Info, arg):
+							entry.nils[pobj] = isNil
+						case isNonNilExpr(e.Info, arg):
+							entry.nils[pobj] = nonNil
+						default:
+							if aobj := objOf(e.Info, arg); aobj != nil && st.nils[aobj] != nilUnknown {
+								entry.nils[pobj] = st.nils[aobj]
+							}
+						}
+					}
+				}
+				idx++
+			}
+			if len(fld.Names) == 0 {
+				idx++
+			}
+		}
+	}
 	if e.InlEnter != nil {
 		fc.Nil = entry.nils
 		entry.s = e.InlEnter(entry.s, call, sub, fc)
@@ -827,6 +859,20 @@ func (e *Analysis[S]) bookkeep(st *fstate[S], n ast.Node, boundCall *ast.CallExp
 					st.nils[obj] = isNil
 				} else if isNonNilExpr(e.Info, rhs) {
 					st.nils[obj] = nonNil
+				}
+			}
+		}
+	case *ast.ExprStmt:
+		// x.M() where M starts by reading or addressing a field of its pointer receiver: had x
+		// been nil the call would have panicked, so x is not nil on the continuing path
+		if call, ok := v.X.(*ast.CallExpr); ok && e.L != nil {
+			if sel, ok := unparen(call.Fun).(*ast.SelectorExpr); ok {
+				if xobj := objOf(e.Info, sel.X); xobj != nil {
+					if _, isPtr := xobj.Type().(*types.Pointer); isPtr {
+						if tf := e.L.FuncOf(callee(e.Info, call)); tf != nil && derefsReceiverFirst(tf) {
+							st.nils[xobj] = nonNil
+						}
+					}
 				}
 			}
 		}
@@ -1124,4 +1170,39 @@ func mustFlag(db *SiteDB, fi *FuncInfo, set func(n ast.Node, res *resolver) (val
 	}
 	a.Run(fi.Decl, false)
 	return
+}
+
+// derefsReceiverFirst: the first statement of the method selects a field of its (pointer)
+// receiver - unconditionally, so a nil receiver panics before anything else happens.
+func derefsReceiverFirst(fi *FuncInfo) bool {
+	d := fi.Decl
+	if d.Recv == nil || len(d.Recv.List) != 1 || len(d.Recv.List[0].Names) != 1 || d.Body == nil || len(d.Body.List) == 0 {
+		return false
+	}
+	if _, isPtr := d.Recv.List[0].Type.(*ast.StarExpr); !isPtr {
+		return false
+	}
+	info := fi.Pkg.TypesInfo
+	recv := info.Defs[d.Recv.List[0].Names[0]]
+	first := d.Body.List[0]
+	switch first.(type) {
+	case *ast.ExprStmt, *ast.AssignStmt, *ast.IncDecStmt, *ast.ReturnStmt:
+	default:
+		return false // an if / loop / defer first: the selection may be conditional or late
+	}
+	found := false
+	ast.Inspect(first, func(n ast.Node) bool {
+		switch v := n.(type) {
+		case *ast.FuncLit:
+			return false
+		case *ast.SelectorExpr:
+			if id, ok := v.X.(*ast.Ident); ok && info.Uses[id] == recv && recv != nil {
+				if fld := fieldOf(info, v); fld != nil {
+					found = true
+				}
+			}
+		}
+		return true
+	})
+	return found
 }
